@@ -445,7 +445,9 @@ def run_configs_and_flags(report, rng):
                 report_failure(report, "configs_order", case)
                 return
     # (b) options by flag on top of an untouched configuration file, twice in one build directory
-    docs, srcs = e2e.gen_sources(rng, n=3)
+    # (palette variables opaque: a COLRv0 build refuses one variable met with two opacities - a false alarm of this case
+    # under seed 2, when it was first run under several seeds)
+    docs, srcs = e2e.gen_sources(rng, n=3, var_opaque=True)
     for opt, first, second in (("--color_format", "glyf_colr_0", "glyf_colr_1"), ("--upem", "1000", "2048"), ("--width", "1000", "0")):
         with scratch_dir("verif-c08ff-") as d:
             (d / "art").mkdir()
